@@ -949,6 +949,11 @@ pub fn finish(ctx: Ctx, meta: EvidenceMeta) -> Outcome {
   if exit_code == 0 && harness_bug {
     exit_code = 2;
   }
+  let timeouts = HELPER_TIMEOUTS.lock().unwrap().clone();
+  if exit_code == 0 && !timeouts.is_empty() {
+    println!("INCONCLUSIVE: {} helper process(es) did not finish within the time limit, e.g. {}", timeouts.len(), timeouts[0]);
+    exit_code = 2;
+  }
   if exit_code == 0 && aborted {
     println!("INCONCLUSIVE: a generator aborted (too many rejections)");
     exit_code = 2;
@@ -1054,11 +1059,11 @@ pub fn helper_verdict(property: &str, mode: &str, index: u32, cl: &mut Classes) 
     if profile == "unoptimised" {
       cmd.env("PV_HELPER_LIGHT", "1");
     }
-    let out = match cmd.args([mode, &arg]).output() {
-      Ok(o) => o,
-      Err(_) => continue,
+    let out = match run_helper(cmd.args([mode, &arg]), 300, &format!("{property} helper {mode} {arg} ({profile} build)")) {
+      Some(o) if !o.timed_out => o,
+      _ => continue,
     };
-    let text = String::from_utf8_lossy(&out.stdout).to_string();
+    let text = out.stdout.clone();
     let cases = text.lines().filter(|l| l.starts_with("CASE ")).count();
     total += cases;
     cl.tag(format!("helper process ({profile} build): {} cases", if cases >= 100 { ">=100" } else { "<100" }));
@@ -1077,6 +1082,43 @@ pub fn helper_verdict(property: &str, mode: &str, index: u32, cl: &mut Classes) 
   }
   cl.nontrivial(total > 0);
   Verdict::Pass
+}
+
+/// helper processes that did not finish within their limit (killed): reported as INCONCLUSIVE (exit 2) unless a violation
+/// was found as well - a time limit is never a verdict
+pub static HELPER_TIMEOUTS: Mutex<Vec<String>> = Mutex::new(Vec::new());
+
+pub struct HelperOut {
+  pub status: Option<std::process::ExitStatus>,
+  pub stdout: String,
+  pub timed_out: bool,
+}
+
+/// Runs a helper process to its end or kills it after `secs` seconds (recording that). stdout is collected, stderr dropped.
+pub fn run_helper(cmd: &mut std::process::Command, secs: u64, what: &str) -> Option<HelperOut> {
+  use std::io::Read;
+  let mut child = cmd.stdout(std::process::Stdio::piped()).stderr(std::process::Stdio::null()).stdin(std::process::Stdio::null()).spawn().ok()?;
+  let mut out = child.stdout.take()?;
+  let reader = std::thread::spawn(move || {
+    let mut s = String::new();
+    let _ = out.read_to_string(&mut s);
+    s
+  });
+  let start = Instant::now();
+  let (status, timed_out) = loop {
+    match child.try_wait() {
+      Ok(Some(st)) => break (Some(st), false),
+      Ok(None) if start.elapsed().as_secs() >= secs => {
+        let _ = child.kill();
+        let _ = child.wait();
+        HELPER_TIMEOUTS.lock().unwrap().push(format!("{what} (limit {secs} s)"));
+        break (None, true);
+      }
+      Ok(None) => std::thread::sleep(std::time::Duration::from_millis(2)),
+      Err(_) => break (None, false),
+    }
+  };
+  Some(HelperOut { status, stdout: reader.join().unwrap_or_default(), timed_out })
 }
 
 /// helper for strategies: monotone index map (shrinks toward the first alternative)
